@@ -1073,7 +1073,7 @@ func (db *DB) init(ctx context.Context) (err error) {
 	dsn := fmt.Sprintf("file:%s?_pragma=busy_timeout(%d)&_pragma=wal_autocheckpoint(0)",
 		db.path, db.BusyTimeout.Milliseconds())
 
-	if db.db, err = sql.Open("sqlite", dsn); err != nil {
+	if db.db, err = sql.Open(verifhook.SQLDriver, dsn); err != nil {
 		return err
 	}
 
